@@ -40,6 +40,13 @@ impl Transcript {
         Transcript { h: 0xcbf29ce484222325, n: 0, head: vec![], accepted_records: 0, rejected_records: 0, names_seen: 0, compressed_names: 0, rtypes: 0, closure_fail: None, cap_fail: None }
     }
     fn add(&mut self, s: &str) {
+        // text the library hands out is text: a Display impl that writes octets of the message through
+        // from_utf8_unchecked produces a String that is not UTF-8 (undefined behaviour for whoever uses it next)
+        if std::str::from_utf8(s.as_bytes()).is_err() && self.closure_fail.is_none() {
+            let at = std::str::from_utf8(s.as_bytes()).err().map(|e| e.valid_up_to()).unwrap_or(0);
+            self.closure_fail = Some(("closure:displayed-text-is-not-utf8".into(), format!("a displayed value is not valid UTF-8: {:?}... followed by octets {}", String::from_utf8_lossy(&s.as_bytes()[at.saturating_sub(30)..at]), crate::ctx::hex(&s.as_bytes()[at..s.len().min(at + 8)]))));
+            return;
+        }
         self.h = (self.h ^ hash64(s)).wrapping_mul(0x100000001b3);
         self.n += 1;
         if self.head.len() < 60 {
